@@ -101,7 +101,83 @@ theorem factorize_eq_spec (N n fuel : Nat) (h1 : 1 ≤ n) (hn : n ≤ N) (hf : n
   obtain ⟨l, e, hF, _⟩ := factorize_ok (sieve_minTable N) fuel n h1 hn hf
   rw [e, hF.unique (specFactorize_ok fuel n h1 hf)]
 
+/-! ### one large table answers for every smaller limit (the driver's dense limit sweep `new N`) -/
+
+/-- The prime list of a table built for a limit `M ≥ N`, cut at `N`, is the list of all primes `≤ N` … -/
+theorem primesUpTo_spec (M N : Nat) (h : N ≤ M) :
+    primesUpTo (sieve M) N = (List.range (N + 1)).filter Nat.Prime := by
+  unfold primesUpTo primesUpToL
+  rw [primes_spec]
+  exact takeWhile_le_filter_range (fun a => decide a.Prime) N M h
+
+/-- … that is, literally what `Sieve::new(N).primes()` is in the model. -/
+theorem primesUpTo_prefix (M N : Nat) (h : N ≤ M) : primesUpTo (sieve M) N = primesOf (sieve N) := by
+  rw [primesUpTo_spec M N h, primes_spec]
+
+/-- The early-exit fold the driver runs over the prime list of the large table is the fold over `Sieve::new(N).primes()`
+    (count, FNV hash and last element of the `new N` summary are such folds). -/
+theorem foldUpTo_prefix {β : Type} (f : β → Nat → β) (M N : Nat) (h : N ≤ M) (b : β) :
+    foldUpTo f N (primesOf (sieve M)) b = (primesOf (sieve N)).foldl f b := by
+  rw [foldUpTo_eq, ← primesUpTo_prefix M N h]; rfl
+
+/-- Below the smaller limit the least-prime entries of the two tables coincide (entries 0 and 1 included). -/
+theorem minPrime_prefix (M N n : Nat) (h : N ≤ M) (hn : n ≤ N) : minPrime (sieve M) n = minPrime (sieve N) n := by
+  by_cases h2 : 2 ≤ n
+  · rw [minPrime_spec M n h2 (by omega), minPrime_spec N n h2 hn]
+  · rw [minPrime_small M n (by omega) (by omega), minPrime_small N n (by omega) hn]
+
+theorem isPrime_prefix (M N n : Nat) (h : N ≤ M) (hn : n ≤ N) : isPrime (sieve M) n = isPrime (sieve N) n := by
+  rw [isPrime_spec M n (by omega), isPrime_spec N n hn]
+
+/-- `factorize` on the larger table is `factorize` on the smaller one (for arguments the smaller one covers). -/
+theorem factorize_prefix (M N n fuel : Nat) (h : N ≤ M) (h1 : 1 ≤ n) (hn : n ≤ N) (hf : n < 2 ^ fuel) :
+    factorize (sieve M) fuel n = factorize (sieve N) fuel n := by
+  rw [factorize_eq_spec M n fuel h1 (by omega) hf, factorize_eq_spec N n fuel h1 hn hf]
+
+/-! ### every way of consuming `factorize(n)` (the driver's `itm` cases)
+
+`modesOf L k` is std's definition of each provided `Iterator` method on an iterator yielding `L`, after `k` calls of
+`next`.  What the model's iterator yields is the trial-division factorisation of the `S` column, so every consumption
+mode of the model equals the same mode of the specification. -/
+theorem iterModes_eq_spec (N n fuel k : Nat) (h1 : 1 ≤ n) (hn : n ≤ N) (hf : n < 2 ^ fuel) :
+    (factorize (sieve N) fuel n).map (fun L => modesOf L k) = .ok (modesOf (specFactorize fuel n) k) := by
+  rw [factorize_eq_spec N n fuel h1 hn hf]; rfl
+
+/-- `count()` is the number of distinct prime divisors, and `k` calls of `next` consume exactly `min k (count)` of them. -/
+theorem iterModes_count (N n fuel k : Nat) (h1 : 1 ≤ n) (hn : n ≤ N) (hf : n < 2 ^ fuel) :
+    ∃ L, factorize (sieve N) fuel n = .ok L ∧ L.length = n.primeFactors.card ∧
+      (modesOf L k).count = n.primeFactors.card - k := by
+  obtain ⟨l, e, hF, _⟩ := factorize_ok (sieve_minTable N) fuel n h1 hn hf
+  refine ⟨l, e, hF.length_eq (by omega), ?_⟩
+  simp only [modesOf, List.length_drop]
+  rw [hF.length_eq (by omega)]
+
+/-- `map(|(_, e)| e + 1).product()` over the whole iterator is the number of divisors of `n`. -/
+theorem iterModes_divisor_count (N n fuel : Nat) (h1 : 1 ≤ n) (hn : n ≤ N) (hf : n < 2 ^ fuel) :
+    ∃ L, factorize (sieve N) fuel n = .ok L ∧ (modesOf L 0).prodExp1 = n.divisors.card := by
+  obtain ⟨l, e, hF, _⟩ := factorize_ok (sieve_minTable N) fuel n h1 hn hf
+  refine ⟨l, e, ?_⟩
+  simp only [modesOf, List.drop_zero]
+  exact hF.prod_succ_eq_card_divisors (by omega)
+
 /-! ### non-vacuity: concrete limits and arguments satisfy the hypotheses, and the statements say something -/
+
+example : primesUpTo (sieve 100) 20 = [2, 3, 5, 7, 11, 13, 17, 19] := by
+  rw [primesUpTo_spec 100 20 (by omega)]; decide +kernel
+example : foldUpTo (fun a _ => a + 1) 20 (primesOf (sieve 100)) 0 = 8 := by
+  rw [foldUpTo_prefix _ 100 20 (by omega), primes_spec]; decide +kernel
+example : minPrime (sieve 100) 91 = minPrime (sieve 91) 91 := minPrime_prefix 100 91 91 (by omega) (by omega)
+example : isPrime (sieve 128) 64 = isPrime (sieve 64) 64 := isPrime_prefix 128 64 64 (by omega) (by omega)
+example : factorize (sieve 100) 6 49 = factorize (sieve 49) 6 49 :=
+  factorize_prefix 100 49 49 6 (by omega) (by omega) (by omega) (by omega)
+-- 360 = 2^3 * 3^2 * 5: after one `next` two items are left; 24 divisors
+example : ∃ L, factorize (sieve 400) 9 360 = .ok L ∧ L.length = 3 ∧ (modesOf L 1).count = 2 := by
+  obtain ⟨L, e, hl, hc⟩ := iterModes_count 400 360 9 1 (by omega) (by omega) (by omega)
+  have h3 : (Nat.primeFactors 360).card = 3 := by decide +kernel
+  exact ⟨L, e, by omega, by omega⟩
+example : (modesOf [(2, 3), (3, 2), (5, 1)] 1).collect = [(3, 2), (5, 1)] ∧ (modesOf [(2, 3), (3, 2), (5, 1)] 0).prodExp1 = 24 ∧
+    (modesOf [(2, 3), (3, 2), (5, 1)] 1).pre = [some (2, 3)] ∧ (modesOf [(2, 3), (3, 2), (5, 1)] 0).maxByExp = some (2, 3) ∧
+    (modesOf [(2, 1), (3, 1)] 0).maxByExp = some (3, 1) ∧ (modesOf [(2, 1), (3, 1)] 0).minByExp = some (2, 1) := by decide
 
 example : minPrime (sieve 100) 91 = .ok 7 := by
   rw [minPrime_spec 100 91 (by omega) (by omega)]; congr 1; decide +kernel
